@@ -122,8 +122,8 @@ type run struct {
 	foreign int
 	// absorbed sigEarly: request slots the pool will never release
 	leakedReq int
-	step    int
-	tok     int
+	step      int
+	tok       int
 
 	sawOverflow bool
 	sawReset    bool
@@ -729,6 +729,15 @@ func (r *run) markLeaseAfterGoAway() {
 // timeoutLost: the harness, as the proxy would on its per-try timeout, resets a request that was
 // silently lost with its dying connection.
 func (r *run) timeoutLost(s *mstream) *failure {
+	if f := r.timeoutLostQuiet(s, true); f != nil {
+		return f
+	}
+	return r.settle("lost-request-timeout")
+}
+
+// timeoutLostQuiet does not wait for quiescence (used inside a concurrent step, whose other outcomes
+// are not yet part of the model; there the books cannot be read against the model either: detect false).
+func (r *run) timeoutLostQuiet(s *mstream, detect bool) *failure {
 	r.logf("request %s lost with its connection: local reset (timeout)", s.token)
 	r.class("lost-request-timeout")
 	if h := r.rig.Reset(s.st); h != nil {
@@ -739,6 +748,9 @@ func (r *run) timeoutLost(s *mstream) *failure {
 		// ResetStream returned without calling our listener: the stream had already been reset and destroyed
 		// (by the dying connection) before the harness - like the proxy - could attach its listener.
 		r.class("reset-before-listener")
+		if !detect {
+			return nil
+		}
 		want, got := r.expect(), r.read()
 		leak := want
 		leak.reqAct++
@@ -756,7 +768,7 @@ func (r *run) timeoutLost(s *mstream) *failure {
 			r.class("absorbed-early-reset-leak")
 		}
 	}
-	return r.settle("lost-request-timeout")
+	return nil
 }
 
 func waitEither(d time.Duration, cond func() bool) bool {
